@@ -3,8 +3,8 @@
    is built by the interpreter, not by dltype), Min, Max, ISqrt, Group and integers builds; [pyden] is the arithmetic
    of the tree; [sprint] mirrors the __str__ methods (constant folding of two literal operands, parentheses around
    an infix operand of lower - or, on the right, equal - precedence).  For every tree whose identifiers are
-   identifiers and whose literals and folded constants are non-negative ([sym_ok]; a negative constant prints as
-   `-n`, which the string grammar rejects: known finding K4), the printed string is accepted by the parser and the
+   identifiers and whose folded constants are defined ([sym_ok]; a negative constant, literal or folded, prints as
+   `(0-n)` since F15 - the string grammar has no negative literals), the printed string is accepted by the parser and the
    resulting dimension evaluates, under every identifier-keyed scope, to the value Python gives the expression:
    the route is sprint s = print_string (embed s) for a stratified [embed s] with den (embed s) = pyden s
    (SymbolicProof.embed_correct), then C05.  That ConstantAxis / AnonymousAxis arithmetic is TypeError is checked by
@@ -29,12 +29,13 @@ Example C18_examples :
   sprint (SBin EXP (SVar "a") (SBin EXP (SVar "b") (SVar "c"))) = Ok "a^(b^c)" /\
   sprint (SBin EXP (SBin EXP (SVar "a") (SVar "b")) (SVar "c")) = Ok "a^b^c" /\
   sprint (SBin MUL (SVar "a") (SBin DIV (SVar "b") (SVar "c"))) = Ok "a*(b/c)" /\
-  sprint (SBin ADD (SVar "a") (SBin SUB (SLit 1) (SLit 3))) = Ok "a+(-2)".    (* K4 *)
+  sprint (SBin ADD (SVar "a") (SBin SUB (SLit 1) (SLit 3))) = Ok "a+((0-2))" /\      (* negative constants: (0-n), formerly K4 *)
+  sprint (SBin MUL (SLit (-3)) (SVar "a")) = Ok "(0-3)*a".
 Proof. repeat split; reflexivity. Qed.
 Example C18_hypotheses_satisfiable :
   sym_ok (SBin DIV (SGroup (SBin SUB (SVar "a") (SBin EXP (SVar "b") (SGroup (SBin SUB (SLit 4) (SVar "z"))))))
                    (SIsqrt (SBin SUB (SVar "b") (SFun2 MIN (SLit 2) (SLit 3))))).
-Proof. simpl. repeat split; auto; try lia. exists 2%Z. split; [reflexivity|lia]. Qed.
+Proof. simpl. repeat split; auto; try lia. exists 2%Z. reflexivity. Qed.
 
 (* Shape[...] as a whole: expression axes, ConstantAxis, AnonymousAxis(...) / Ellipsis, AnonymousAxis("name"), joined by
    spaces.  For a non-empty sequence with at most one multi-axis marker whose axes are well formed, the printed string
